@@ -69,9 +69,11 @@ Halves(f, o, sw) == IF sw THEN <<At(f, o) * 256 + At(f, o + 1), At(f, o + 2) * 2
 RECURSIVE SumWords(_, _, _, _, _)
 SumWords(f, o, e, sw, acc) == IF o >= e THEN acc ELSE SumWords(f, o + 4, e, sw, Add32(Rot20(acc), Halves(f, o, sw)))
 
-(* checksum of the words in a..b-1: from the bytes when they are all known, else the supplied one, else <<-1,-1>> *)
-Chk(f, a, b, sw) == IF Known(f, a, b - a) THEN SumWords(f, a, b, sw, <<0, 0>>)
-                    ELSE IF f.sum # <<>> /\ f.sum[1] = a /\ f.sum[2] = b THEN <<f.sum[3], f.sum[4]>>
+(* checksum of the words in a..b-1: the supplied one when it is for exactly this range (the driver's routine is checked
+   against SumWords on files shown in full, ModelTrace!TViewIntact), else from the bytes when they are all known, else
+   <<-1,-1>> *)
+Chk(f, a, b, sw) == IF f.sum # <<>> /\ f.sum[1] = a /\ f.sum[2] = b THEN <<f.sum[3], f.sum[4]>>
+                    ELSE IF Known(f, a, b - a) THEN SumWords(f, a, b, sw, <<0, 0>>)
                     ELSE <<-1, -1>>
 
 (* ---- text ---- *)
